@@ -45,6 +45,10 @@ def expand_names(ids, rule, shape):
             return '#[ts(rename_all = "%s")] struct S { %s }' % (rule, " ".join("%s: u8," % i for i in group))
         if shape == "variant":
             return '#[ts(rename_all = "%s")] enum E { %s }' % (rule, " ".join("%s," % i for i in group))
+        if shape == "raw_field":         # the same identifiers written as raw identifiers (serde and ts-rs drop the r#)
+            return '#[ts(rename_all = "%s")] struct S { %s }' % (rule, " ".join("r#%s: u8," % i for i in group))
+        if shape == "raw_variant":
+            return '#[ts(rename_all = "%s")] enum E { %s }' % (rule, " ".join("r#%s," % i for i in group))
         if shape == "rename_all_fields":
             return '#[ts(rename_all_fields = "%s")] enum E { V { %s } }' % (rule, " ".join("%s: u8," % i for i in group))
         if shape == "variant_rename_all":
@@ -52,7 +56,7 @@ def expand_names(ids, rule, shape):
         raise ToolError(shape)
 
     def names_of(tokens, n):
-        names = macrodrv.unit_variant_names(tokens) if shape == "variant" else macrodrv.field_names(tokens)
+        names = macrodrv.unit_variant_names(tokens) if shape in ("variant", "raw_variant") else macrodrv.field_names(tokens)
         if len(names) == 2 * n and names[:n] == names[n:]:
             names = names[:n]        # inline() and inline_flattened() carry the same list
         if len(names) != n:
@@ -139,7 +143,7 @@ def run_core(tier, prop):
     # REPLAY: ts-rs (in-process expansion)
     ts = {}
     short = [i for i in ids if len(i) <= (2 if tier == "quick" else 3)]
-    extra = {}
+    extra, rawx = {}, {}
     for rule in RULES:
         for pos in ("field", "variant"):
             for i, n in expand_names(ids, rule, pos).items():
@@ -147,6 +151,9 @@ def run_core(tier, prop):
         for shape in ("rename_all_fields", "variant_rename_all"):
             for i, n in expand_names(short, rule, shape).items():
                 extra[(shape, rule, i)] = n
+        for shape, pos in (("raw_field", "field"), ("raw_variant", "variant")):
+            for i, n in expand_names([x for x in short if x != "_"], rule, shape).items():
+                rawx[(shape, rule, i, pos)] = n
     # both roles in one macro process, in both orders (identifiers on which nothing panics)
     calm = [i for i in short if all(ts[(pos, rule, i)] != ["PANIC"] for pos in ("field", "variant") for rule in RULES)]
     seq = {}
@@ -162,6 +169,9 @@ def run_core(tier, prop):
     for (pos, rule, i), n in ts.items():
         recs.append({"id": by_id[i]["id"], "pos": pos, "rule": rule, "ts": n, "serde": serde[(pos, rule, i)]})
         meta.append((pos, rule, i, pos))
+    for (shape, rule, i, pos), n in rawx.items():
+        recs.append({"id": by_id[i]["id"], "pos": pos, "rule": rule, "ts": n, "serde": serde[(pos, rule, i)]})
+        meta.append((pos, rule, i, shape))
     for (shape, rule, i), n in extra.items():
         recs.append({"id": by_id[i]["id"], "pos": "field", "rule": rule, "ts": n, "serde": serde[("field", rule, i)]})
         meta.append(("field", rule, i, shape))
